@@ -447,6 +447,7 @@ macro_rules! proofs {
 // @harness c14_gcdx_a40 tier=thorough unwind=11 block=64 mem=8 timeout=3000 stretch
 // @harness c14_diag_1x2_e3 tier=quick unwind=6 block=64 mem=8 timeout=1200
 // @harness c14_diag_2x1_e3 tier=quick unwind=6 block=64 mem=6 timeout=1200
+// @harness c14_diag_3x1_e3 tier=thorough unwind=7 block=128 small=64 mem=40 timeout=3600 stretch
 // @harness c14_diag_2x2_e1 tier=quick unwind=6 block=64 mem=20 timeout=1500
 // @harness c14_diag_2x2_e1_reach tier=quick unwind=6 block=64 mem=12 timeout=1500 twin
 // @harness c14_diag_2x2_e2 tier=thorough unwind=7 block=64 mem=24 timeout=3600
@@ -481,6 +482,7 @@ proofs! {
     c14_gcdx_a40 => gcdx_body::<40, 9>(false);
     c14_diag_1x2_e3 => diag_body::<1, 2, 3, 4>(false);
     c14_diag_2x1_e3 => diag_body::<2, 1, 3, 4>(false);
+    c14_diag_3x1_e3 => diag_body::<3, 1, 3, 4>(false);
     c14_diag_2x2_e1 => diag_body::<2, 2, 1, 3>(false);
     c14_diag_2x2_e1_reach => diag_body::<2, 2, 1, 3>(true);
     c14_diag_2x2_e2 => diag_body::<2, 2, 2, 5>(false);
